@@ -213,7 +213,7 @@ def pollHandshake (w : World) : World × Option (Nat × Act) :=
   let after := NotifHs.subsAfter w.maxSize w.hsLocal svc order
   let w1 := w.hsE.foldl (fun w h =>
     match after.find? (fun e => e.peer = h.peer && e.dir = h.dir) with
-    | some e => pipeSet w h.pipe fun x => { x with toLocal := e.sub.toLocal, toRemote := e.sub.toRemote ++ e.sub.outBuf }
+    | some e => pipeSet w h.pipe fun x => { x with toLocal := e.sub.toLocal, toRemote := e.sub.toRemote }
     | none => w) w
   let w2 := { w1 with
     hsE := w.hsE.filterMap fun h =>
